@@ -12,6 +12,11 @@ observable identity) -- an uninterpreted equality (qp.equal assumed an equivalen
         unwrapped for a single measurement.
 SIZE-BOUNDED: concrete tape shapes (number / kind of measurements, number of terms, which terms are Identity), every coefficient,
 offset, result and every observable IDENTITY symbolic (so sharing of single-term measurements between observables is covered).
+
+Further contracts (own sections below, each with its statement): `_split_operations` (shared by batch_params / batch_input: tape b holds the
+b-th slice of exactly the batched parameter slots) and `_diagonalize_subset_of_pauli_obs` with its callees (diagonalize_measurements: wires
+occupied by computational-basis measurements -- all tape wires for a wire-less probs()/sample()/counts() -- never get a basis change, every
+observable is conjugated consistently, ValueError exactly on sets that are not qubit-wise simultaneously measurable).
 """
 import itertools
 
@@ -54,6 +59,625 @@ F13_TAPE = (("V", "Identity", ""), ("E", "Obs", ""), ("E", "Obs", ""))       # [
 
 def shape_label(tape_shape):
     return "[" + ", ".join(f"{m}:{o or 'none'}{('(' + t + ')') if t else ''}" for m, o, t in tape_shape) + "]"
+
+
+# ======================================================================================================================================
+# batch_params / batch_input: the shared helper _split_operations
+#
+#   _split_operations(ops, params, split_indices, num_tapes) -> new_ops          (params == [p for op in ops for p in op.data], call sites)
+#       for EVERY output tape b and EVERY operator k:  new_ops[b][k] is operator k (same gate, wires, hyperparameters) whose parameter in
+#       slot j is   params[idx_k + j][b]  if idx_k + j is a batched index   and   params[idx_k + j] itself otherwise.
+#   This is "tape b is the original circuit evaluated at batch entry b": stacking the executions of the tapes (_nested_stack) then gives the
+#   result of the broadcast circuit, which is the property statement for batch_params / batch_input.
+# SIZE-BOUNDED: operator lists of enumerated arities (1..3 operators, 0..3 parameters each), EVERY subset of the parameter slots batched,
+# batch sizes 1..3; every parameter VALUE symbolic.
+# ======================================================================================================================================
+BP = "pennylane/transforms/batch_params.py"
+BP_ARITIES = [(1,), (2,), (3,), (1, 1), (1, 2), (2, 1), (0, 3), (1, 3), (3, 1), (2, 0, 2)]
+BP_OP_SRC = "class Op:\n    pass\n"
+
+
+def add_split_operations(plan, tier):
+    import numpy as np
+
+    def b_bind(it, args, kw):
+        op, new_params = args
+        if not isinstance(op, Rec) or not isinstance(new_params, tuple):
+            raise Unsupp("bind_new_parameters: operator record and a tuple of parameters expected")
+        if len(new_params) != len(op.data):
+            raise RaiseExc("ValueError")
+        return Rec(w.classes["Op"], {"data": tuple(new_params), "ident": op.ident})
+    w = World(BP, stubs={"Op": (BP_OP_SRC, {"data": Label, "ident": Label})}, functions=["_split_operations"],
+              extra_builtins={"qp.ops.functions.bind_new_parameters": b_bind})
+
+    def slot_values(ctx, name, n_slots, split, batch):
+        out = []
+        for i in range(n_slots):
+            if i in split:
+                out.append(PyList([FloatV(z3.Real(ctx.fresh_name(f"{name}.p{i}_b{b}"))) for b in range(batch)]))
+            else:
+                out.append(FloatV(z3.Real(ctx.fresh_name(f"{name}.p{i}"))))
+        return out
+
+    def mk_ops(arities, split, batch):
+        def mk(ctx, name):
+            vals = slot_values(ctx, name, sum(arities), split, batch)
+            ops, idx = [], 0
+            for k, n in enumerate(arities):
+                ops.append(Rec(w.classes["Op"], {"data": tuple(vals[idx:idx + n]), "ident": z3.Const(ctx.fresh_name(f"{name}.op{k}"), LabelSort)}))
+                idx += n
+            return PyList(ops)
+        return mk
+
+    def gen_ops(arities, split, batch):
+        def gen(rng):
+            ops, idx = [], 0
+            for k, n in enumerate(arities):
+                data = []
+                for j in range(n):
+                    data.append([round(rng.uniform(-2, 2), 3) for _ in range(batch)] if idx + j in split else round(rng.uniform(-2, 2), 3))
+                ops.append({"__class__": "Op", "data": tuple(data), "ident": f"L{rng.randint(0, 7)}"})
+                idx += n
+            return ops
+        return gen
+
+    def mk_params(arities, split, batch):
+        return lambda ctx, name: PyList(slot_values(ctx, name, sum(arities), split, batch))
+
+    def gen_params(arities, split, batch):
+        return lambda rng: [[0.0] * batch if i in split else 0.0 for i in range(sum(arities))]
+
+    GATES = {0: ["CNOT", "CZ"], 1: ["RX", "RY", "RZ", "CRX"], 2: ["U2"], 3: ["Rot", "U3", "CRot"]}
+
+    def lab_index(lab):
+        digits = "".join(ch for ch in str(lab) if ch.isdigit())
+        return int(digits) if digits else 0
+
+    def real_op(fields):
+        import pennylane as qp
+        data = [np.array(x, dtype=float) if isinstance(x, (list, tuple)) else float(x) for x in fields["data"]]
+        i = lab_index(fields.get("ident"))
+        pool = GATES[len(data)]
+        cls = getattr(qp, pool[i % len(pool)])
+        wires = [i % 3, (i + 1) % 3][:cls.num_wires]
+        return cls(*data, wires=wires)
+    w.stub_realize = {"Op": real_op}
+
+    def call_site(rng, m):
+        """call-site precondition: params IS the flat list of the operators' parameters (tape.get_parameters(trainable_only=False))"""
+        m = dict(m)
+        m["params"] = [p for op in m["ops"] for p in op["data"]]
+        return m
+
+    def native_call(mod, a):
+        a["params"] = [p for op in a["ops"] for p in op.data]
+        return mod._split_operations(a["ops"], a["params"], list(a["split_indices"]), a["num_tapes"])
+
+    def same_value(x, y):
+        """symbolic parameter values: the same real / the same list of batch entries"""
+        if isinstance(x, PyList) or isinstance(y, PyList):
+            if not (isinstance(x, PyList) and isinstance(y, PyList)) or len(x.items) != len(y.items):
+                return False
+            return And(*[same_value(p, q) for p, q in zip(x.items, y.items)])
+        if isinstance(x, (tuple, list, Rec)) or isinstance(y, (tuple, list, Rec)) or x is None or y is None:
+            return False
+        return real_of(x) == real_of(y)
+
+    def requires(a):
+        if not isinstance(a.ops, PyList):
+            return True                                   # native run: native_call / call_site pass the operators' own parameters
+        flat = [p for op in a.ops.items for p in op.data]
+        return And(len(flat) == len(a.params.items), *[same_value(p, q) for p, q in zip(flat, a.params.items)])
+
+    def ensures(o, r, nw):
+        split, batch = set(o.split_indices), o.num_tapes
+        if isinstance(o.ops, PyList):
+            ops, params = o.ops.items, o.params.items
+            if not isinstance(r, PyList) or len(r.items) != batch:
+                return False
+            goals = []
+            for b in range(batch):
+                tape_ops = r.items[b]
+                if not isinstance(tape_ops, PyList) or len(tape_ops.items) != len(ops):
+                    return False
+                idx = 0
+                for k, op in enumerate(ops):
+                    new = tape_ops.items[k]
+                    if not isinstance(new, Rec) or new.cls.name != "Op" or not isinstance(new.data, tuple) or len(new.data) != len(op.data):
+                        return False
+                    goals.append(new.ident == op.ident)
+                    for j in range(len(op.data)):
+                        want = params[idx + j].items[b] if idx + j in split else params[idx + j]
+                        goals.append(same_value(new.data[j], want))
+                    idx += len(op.data)
+            return And(*goals)
+        # ---- executable form on real operators ----
+        import pennylane as qp
+        ops, params = list(o.ops), [p for op in o.ops for p in op.data]
+        if len(r) != batch:
+            return False
+        for b in range(batch):
+            if len(r[b]) != len(ops):
+                return False
+            idx = 0
+            for k, op in enumerate(ops):
+                new = r[b][k]
+                if type(new) is not type(op) or new.wires != op.wires or len(new.data) != len(op.data):
+                    return False
+                for j in range(len(op.data)):
+                    want = np.asarray(params[idx + j])[b] if idx + j in split else np.asarray(params[idx + j])
+                    got = np.asarray(new.data[j])
+                    if got.shape != want.shape or not np.allclose(got, want, atol=1e-12, rtol=0):
+                        return False
+                idx += len(op.data)
+        return True
+
+    cases = []
+    for arities in BP_ARITIES:
+        n = sum(arities)
+        subsets = [s for r_ in range(n + 1) for s in itertools.combinations(range(n), r_)]
+        if tier == "quick" and n >= 4:
+            subsets = [s for s in subsets if len(s) <= 2 or len(s) == n]
+        for split in subsets:
+            batches = (1, 2, 3) if (arities in ((3,), (1, 2)) or tier != "quick") else (2,)
+            for batch in batches:
+                label = f"arities {'-'.join(map(str, arities))}, batched slots {{{','.join(map(str, split))}}}, batch {batch}"
+                cases.append(Case(label, {"ops": T("build", mk_ops(arities, split, batch), gen=gen_ops(arities, split, batch)),
+                                          "params": T("build", mk_params(arities, split, batch), gen=gen_params(arities, split, batch)),
+                                          "split_indices": T("const", tuple(split)), "num_tapes": T("const", batch)},
+                                  size_bounded=True, requires=requires, ensures=ensures, native_gen=call_site, native_call=native_call))
+    fc = FnContract(w, "_split_operations", cases)
+    plan.fn_under_contract(BP, "_split_operations")
+    for ob in obligations_for("C20", fc, tier):
+        plan.add(ob)
+    return {"bounds": ["_split_operations (batch_params / batch_input): operator lists with parameter counts " +
+                       ", ".join("-".join(map(str, a)) for a in BP_ARITIES) + "; every subset of the parameter slots batched (lists with 4 slots in the "
+                       "quick tier: subsets of size <= 2 and the full set); batch size 2 (1, 2, 3 for the lists 3 and 1-2; all three in the thorough tier)"],
+            "assumed": ["qp.ops.functions.bind_new_parameters(op, params): the same gate (class, wires, hyperparameters) with exactly the given "
+                        "parameters; ValueError when their number differs"],
+            "assumptions": ["_split_operations: parameters are real scalars (unbatched) / lists of batch-size real scalars (batched): tensors with "
+                            "trailing dimensions behave the same under params[i][b]; params is the flat parameter list of ops (call sites: "
+                            "tape.get_parameters(trainable_only=False))"]}
+
+
+# ======================================================================================================================================
+# diagonalize_measurements: the bookkeeping of _diagonalize_subset_of_pauli_obs (also the fallback of the pauli_rep based path)
+#
+#   _diagonalize_subset_of_pauli_obs(tape, supported_base_obs, to_eigvals=False) -> (diagonalizing_gates, new_measurements)
+#   A measurement that samples the computational basis (obs is None) occupies its wires, ALL tape wires when it has none.
+#   A leaf observable kind(w) is "switched" when kind is not supported (Z and Identity always are).  The returned gates are basis changes
+#   G_kind(w) with  G_kind(w)^dagger Z(w) G_kind(w) == kind(w)  (assumed table of X / Y / Hadamard .diagonalizing_gates()).
+#   RETURNS  => executing ops + gates and measuring new_measurements reproduces every original result:
+#        at most one basis change per wire;  no basis change on a wire occupied by a computational-basis measurement (those measurements
+#        are returned unchanged);  every non-identity leaf kind(w) became Z(w) when wire w carries a basis change -- which then must be
+#        G_kind -- and is unchanged when it carries none;  Identity leaves stay;  measurement classes / product structure / order kept.
+#   RAISES ValueError  <=>  the measurement set is not simultaneously measurable qubit-wise: two non-identity leaves of different kinds on
+#        one wire, or a non-Z, non-identity leaf on an occupied wire.
+# SIZE-BOUNDED: enumerated measurement lists (<= 3 measurements, leaves X / Y / Z / Hadamard / Identity and products of two leaves,
+# probs / sample / counts with 0..2 wires); EVERY wire label symbolic (3 distinct tape wires, every measurement wire any of them) and the
+# set of supported observables symbolic (all 8 subsets of {X, Y, Hadamard}).
+# ======================================================================================================================================
+DG = "pennylane/transforms/diagonalize_measurements.py"
+DG_PAULI_SRC = ("class {0}:\n    def __init__(self, wires=None):\n        self.wires = __as_wires__(wires)\n"
+                "    def __eq__(self, other):\n        return __op_eq__(self, other)\n"
+                "    def diagonalizing_gates(self):\n        return __diag_gates__(self)\n")
+DG_PROD_SRC = ("class Prod:\n    def __init__(self, *operands):\n        self.operands = operands\n"
+               "    def __eq__(self, other):\n        return __op_eq__(self, other)\n")
+DG_MP_SRC = ("class {0}:\n    def __init__(self, obs=None, wires=None):\n        self.obs = obs\n        self.wires = wires\n"
+             "    @property\n    def samples_computational_basis(self):\n        return self.obs is None\n")
+DG_PLAIN_SRC = "class {0}:\n    pass\n"
+DG_KINDS = {"x": "X", "y": "Y", "z": "Z", "h": "Hadamard", "i": "Identity"}
+DG_MPS = {"E": "ExpectationMP", "V": "VarianceMP", "P": "ProbabilityMP", "S": "SampleMP", "C": "CountsMP"}
+DG_REAL_NAME = {"PauliX": "X", "PauliY": "Y", "PauliZ": "Z", "Hadamard": "Hadamard", "Identity": "Identity", "X": "X", "Y": "Y", "Z": "Z"}
+DG_NW = 3
+# measurement shapes: ("E"|"V", leaves) an observable measurement (one leaf or a product of leaves);  ("P"|"S"|"C", k) a computational-basis
+# measurement with k wires (0 = no wires given = all tape wires)
+DG_OBS = [("E", "x"), ("E", "y"), ("E", "z"), ("E", "h"), ("E", "i"), ("V", "x"), ("E", "xz"), ("E", "yx"), ("V", "hi")]
+DG_CB = [("P", 0), ("P", 1), ("P", 2), ("S", 0), ("C", 1)]
+DG_TRIPLES = [(("P", 0), ("E", "z"), ("E", "x")), (("E", "x"), ("E", "xz"), ("P", 1)), (("E", "y"), ("S", 1), ("E", "yx")),
+              (("E", "h"), ("V", "hi"), ("E", "z")), (("P", 1), ("C", 0), ("E", "zz")), (("E", "xz"), ("E", "yx"), ("E", "z")),
+              (("E", "x"), ("E", "x"), ("V", "x")), (("P", 1), ("P", 1), ("E", "y"))]
+
+
+def dg_label(shape):
+    return "[" + ", ".join(f"{m}:{t if isinstance(t, str) else str(t) + 'w'}" for m, t in shape) + "]"
+
+
+def add_diagonalize_bookkeeping(plan, tier):
+    from vf.pyvc.engine import Model, FuncRef
+    from vf.pyvc.interp import Interp
+    import ast as _ast
+
+    class Fn(Model):
+        def __init__(self, f):
+            self.f = f
+
+        def vf_call(self, interp, args, kwargs):
+            return self.f(interp, args, kwargs)
+
+    class MaybeCls(Model):
+        """an element of supported_base_obs that is present iff `flag` (so that one case covers every subset)"""
+
+        def __init__(self, name, flag):
+            self.name, self.flag = name, flag
+
+        def concretize_with(self, world, model):
+            return self.name if z3.is_true(model.eval(self.flag, model_completion=True)) else None
+
+        def snapshot(self):
+            return self
+
+    def elem_eq(it, x, e):
+        if isinstance(x, FuncRef) and isinstance(e, FuncRef):
+            return x.name == e.name
+        if isinstance(x, FuncRef) and isinstance(e, MaybeCls):
+            return e.flag if x.name == e.name else False
+        if isinstance(e, FuncRef) and isinstance(x, MaybeCls):
+            return x.flag if x.name == e.name else False
+        if isinstance(x, (FuncRef, MaybeCls)) or isinstance(e, (FuncRef, MaybeCls)):
+            return False
+        return it.equal(x, e)
+
+    class OSet(Model):
+        """python set built inside the function: the list of inserted elements; membership is the disjunction of element equalities
+        (operator equality = same class and wires, class equality by name), so it forks on the equality of symbolic wire labels"""
+
+        def __init__(self, items):
+            self.items = list(items)
+
+        def vf_contains(self, interp, x):
+            r = False
+            for e in self.items:
+                r = interp.or_(r, elem_eq(interp, x, e))
+            return r
+
+        def snapshot(self):
+            return OSet(self.items)
+
+        @property
+        def add(self):
+            return Fn(lambda it, a, k: self.items.append(a[0]))
+
+        @property
+        def update(self):
+            return Fn(lambda it, a, k: self.items.extend(it.iter_concrete(a[0]) if not isinstance(a[0], OSet) else a[0].items))
+
+        @property
+        def union(self):
+            return Fn(lambda it, a, k: OSet(self.items + [y for s in a for y in (s.items if isinstance(s, OSet) else it.iter_concrete(s))]))
+
+        @property
+        def copy(self):
+            return Fn(lambda it, a, k: OSet(self.items))
+
+        def vf_binop(self, interp, name, other, swapped, node):
+            if name == "or" and isinstance(other, OSet):
+                return OSet(other.items + self.items if swapped else self.items + other.items)
+            raise Unsupp(f"set operation {name}")
+
+    class DInterp(Interp):
+        def e_SetComp(self, n, env):
+            lc = _ast.copy_location(_ast.ListComp(elt=n.elt, generators=n.generators), n)
+            v = self.eval(lc, env)
+            if not isinstance(v, PyList):
+                raise Unsupp("set comprehension over a symbolic sequence")
+            return OSet(v.items)
+
+        def e_Set(self, n, env):
+            return OSet([self.eval(e, env) for e in n.elts])
+
+    def b_set(it, args, kw):
+        if not args:
+            return OSet([])
+        if isinstance(args[0], OSet):
+            return OSet(args[0].items)
+        return OSet(it.iter_concrete(args[0]))
+
+    def b_as_wires(it, args, kw):
+        (x,) = args
+        if isinstance(x, PyList):
+            return PyList(list(x.items))
+        if isinstance(x, tuple):
+            return PyList(list(x))
+        if x is None:
+            raise RaiseExc("TypeError")
+        return PyList([x])
+
+    def b_wires(it, args, kw):
+        return b_as_wires(it, args, kw)
+
+    def b_op_eq(it, args, kw):
+        a, b = args
+        if not (isinstance(a, Rec) and isinstance(b, Rec)) or a.cls is not b.cls:
+            return False
+        if a.cls.name == "Prod":
+            if len(a.operands) != len(b.operands):
+                return False
+            r = True
+            for p, q in zip(a.operands, b.operands):
+                r = it.and_(r, it.equal(p, q))
+            return r
+        return it.equal(a.wires, b.wires)
+
+    def b_diag_gates(it, args, kw):
+        (op,) = args
+        if op.cls.name in ("Z", "Identity"):
+            return PyList([])
+        return PyList([Rec(w.classes["BasisChange"], {"kind": op.cls.name, "wire": op.wires.items[0]})])
+
+    def dispatch_non_basic(it, args, kw):
+        """functools.singledispatch on the class of the first argument (assumed): CompositeOp -> _diagonalize_composite_op"""
+        obs = args[0]
+        if isinstance(obs, Rec) and obs.cls.name == "Prod":
+            return it.call_user(w.functions["_diagonalize_composite_op"], args, kw, None, qual="_diagonalize_composite_op")
+        return it.call_user(w.functions["_diagonalize_non_basic_observable"], args, kw, None, qual=None)
+
+    stubs = {k: (DG_PAULI_SRC.format(k), {"wires": Label}) for k in DG_KINDS.values()}
+    stubs["Prod"] = (DG_PROD_SRC, {"operands": Label})
+    stubs.update({k: (DG_MP_SRC.format(k), {"obs": Label, "wires": Label}) for k in DG_MPS.values()})
+    stubs["Tape"] = (DG_PLAIN_SRC.format("Tape"), {"measurements": Label, "wires": Label})
+    stubs["BasisChange"] = (DG_PLAIN_SRC.format("BasisChange"), {"kind": Label, "wire": Int})
+    w = World(DG, stubs=stubs,
+              functions=["_diagonalize_subset_of_pauli_obs", "_diagonalize_observable", "_check_if_diagonalizing", "_get_obs_and_gates",
+                         "_diagonalize_non_basic_observable", "_diagonalize_composite_op"],
+              modular={"_diagonalize_non_basic_observable": dispatch_non_basic},
+              extra_builtins={"set": b_set, "__as_wires__": b_as_wires, "qp.wires.Wires": b_wires, "__op_eq__": b_op_eq,
+                              "__diag_gates__": b_diag_gates})
+    w.module_values = {f"qp.{k}": FuncRef("class", k, w.classes[k]) for k in DG_KINDS.values()}
+    w.module_values.update({"qp.PauliX": w.module_values["qp.X"], "qp.PauliY": w.module_values["qp.Y"], "qp.PauliZ": w.module_values["qp.Z"]})
+
+    # ---- symbolic tapes --------------------------------------------------------------------------------------------------------------------
+    def mk_tape(shape):
+        def mk(ctx, name):
+            wire = lambda s: z3.Int(ctx.fresh_name(f"{name}.{s}"))
+            mps = []
+            for j, (mk_, t) in enumerate(shape):
+                cls = w.classes[DG_MPS[mk_]]
+                if isinstance(t, str):
+                    leaves = [Rec(w.classes[DG_KINDS[c]], {"wires": PyList([wire(f"m{j}.leaf{p}")])}) for p, c in enumerate(t)]
+                    obs = leaves[0] if len(leaves) == 1 else Rec(w.classes["Prod"], {"operands": tuple(leaves)})
+                    mps.append(Rec(cls, {"obs": obs, "wires": None}))
+                else:
+                    mps.append(Rec(cls, {"obs": None, "wires": PyList([wire(f"m{j}.w{p}") for p in range(t)])}))
+            return Rec(w.classes["Tape"], {"measurements": PyList(mps), "wires": PyList([wire(f"tapewire{p}") for p in range(DG_NW)])})
+        return mk
+
+    def gen_tape(shape):
+        def gen(rng):
+            labels = rng.sample(range(0, 6), DG_NW)
+            mps = []
+            for mk_, t in shape:
+                if isinstance(t, str):
+                    leaves = [{"__class__": DG_KINDS[c], "wires": [rng.choice(labels)]} for c in t]
+                    obs = leaves[0] if len(leaves) == 1 else {"__class__": "Prod", "operands": tuple(leaves)}
+                    mps.append({"__class__": DG_MPS[mk_], "obs": obs, "wires": None})
+                else:
+                    mps.append({"__class__": DG_MPS[mk_], "obs": None, "wires": rng.sample(labels, t)})
+            return {"__class__": "Tape", "measurements": mps, "wires": labels}
+        return gen
+
+    def mk_supported(ctx, name):
+        return PyList([MaybeCls(k, z3.Bool(ctx.fresh_name(f"{name}.has{k}"))) for k in ("X", "Y", "Hadamard")])
+
+    def gen_supported(rng):
+        return [k if rng.random() < 0.4 else None for k in ("X", "Y", "Hadamard")]
+
+    # ---- real objects ------------------------------------------------------------------------------------------------------------------------
+    def real_pauli(kind):
+        def mk(fields):
+            import pennylane as qp
+            return getattr(qp, kind)(fields["wires"][0])
+        return mk
+
+    def real_mp(kind):
+        def mk(fields):
+            import pennylane as qp
+            if kind == "ExpectationMP":
+                return qp.expval(fields["obs"])
+            if kind == "VarianceMP":
+                return qp.var(fields["obs"])
+            f = {"ProbabilityMP": qp.probs, "SampleMP": qp.sample, "CountsMP": qp.counts}[kind]
+            return f(wires=list(fields["wires"])) if fields["wires"] else f()
+        return mk
+
+    def state_prep(wires):
+        import pennylane as qp
+        ops = []
+        for i, x in enumerate(wires):
+            ops += [qp.RX(0.4 + 0.37 * i, x), qp.RY(1.1 - 0.23 * i, x), qp.RZ(0.6 + 0.41 * i, x)]
+        for i in range(len(wires) - 1):
+            ops += [qp.CNOT([wires[i], wires[i + 1]]), qp.RY(0.5 + 0.3 * i, wires[i + 1]), qp.RX(-0.8 + 0.2 * i, wires[i])]
+        if len(wires) > 1:
+            ops += [qp.CRY(-0.8, [wires[-1], wires[0]]), qp.RZ(0.3, wires[0])]
+        return ops
+
+    def real_tape(fields):
+        import pennylane as qp
+        return qp.tape.QuantumScript(state_prep(list(fields["wires"])), list(fields["measurements"]))
+    w.stub_realize = {k: real_pauli(k) for k in DG_KINDS.values()}
+    w.stub_realize.update({k: real_mp(k) for k in DG_MPS.values()})
+    w.stub_realize["Prod"] = lambda fields: __import__("pennylane").prod(*fields["operands"])
+    w.stub_realize["Tape"] = real_tape
+
+    def native_call(mod, a):
+        import pennylane as qp
+        a["supported_base_obs"] = [getattr(qp, k) for k in a["supported_base_obs"] if k]
+        return mod._diagonalize_subset_of_pauli_obs(a["tape"], a["supported_base_obs"], to_eigvals=False)
+
+    # ---- views that work on the records and on the real objects ----------------------------------------------------------------------------
+    def is_sym(tape):
+        return isinstance(tape, Rec)
+
+    def seq(x):
+        return list(x.items) if isinstance(x, PyList) else list(x)
+
+    def kind_of(op):
+        return op.cls.name if isinstance(op, Rec) else DG_REAL_NAME.get(type(op).__name__, type(op).__name__)
+
+    def leaves_of(obs):
+        """[(kind, wire)] of a basic observable / a product of basic observables, in operand order"""
+        if kind_of(obs) == "Prod":
+            return [l for o in obs.operands for l in leaves_of(o)]
+        return [(kind_of(obs), seq(obs.wires)[0])]
+
+    def tape_view(tape):
+        """([(j, leaves)] of the observable measurements, [(j, occupied wires)] of the computational-basis ones)"""
+        obs_mps, cb_mps = [], []
+        all_wires = seq(tape.wires)
+        for j, m in enumerate(seq(tape.measurements)):
+            if m.obs is None:
+                ws = seq(m.wires) if m.wires is not None else []
+                cb_mps.append((j, ws if len(ws) > 0 else all_wires))
+            else:
+                obs_mps.append((j, leaves_of(m.obs)))
+        return obs_mps, cb_mps
+
+    def supported_kinds(sup):
+        """kind -> condition under which the kind is supported (not switched)"""
+        flags = {"Z": True, "Identity": True, "X": False, "Y": False, "Hadamard": False}
+        for e in seq(sup):
+            if isinstance(e, MaybeCls):
+                flags[e.name] = Or(flags[e.name], e.flag)
+            elif isinstance(e, str):
+                flags[e] = True
+            elif e is not None:
+                flags[DG_REAL_NAME.get(getattr(e, "__name__", ""), getattr(e, "__name__", ""))] = True
+        return flags
+
+    def conflict(o):
+        """the measurement set is not simultaneously measurable qubit-wise"""
+        obs_mps, cb_mps = tape_view(o.tape)
+        flat = [l for _, ls in obs_mps for l in ls if l[0] != "Identity"]
+        cs = []
+        for a in range(len(flat)):
+            for b in range(a + 1, len(flat)):
+                if flat[a][0] != flat[b][0]:
+                    cs.append(flat[a][1] == flat[b][1])
+        for k, x in flat:
+            if k != "Z":
+                cs += [x == u for _, ws in cb_mps for u in ws]
+        return Or(*cs) if cs else False
+
+    def well_formed(a):
+        if not is_sym(a.tape):
+            return True
+        tw = seq(a.tape.wires)
+        obs_mps, cb_mps = tape_view(a.tape)
+        used = [x for _, ls in obs_mps for _, x in ls] + [x for (j, _) in cb_mps for x in seq(a.tape.measurements.items[j].wires)]
+        facts = [z3.Distinct(*tw)] + [z3.Or(*[x == u for u in tw]) for x in used]
+        for j, _ in cb_mps:
+            ws = seq(a.tape.measurements.items[j].wires)
+            if len(ws) > 1:
+                facts.append(z3.Distinct(*ws))
+        return z3.And(*facts)
+
+    def close(a, b):
+        import numpy as np
+        a, b = np.asarray(a, dtype=float), np.asarray(b, dtype=float)
+        return a.shape == b.shape and bool(np.allclose(a, b, atol=1e-9, rtol=0))
+
+    def native_post(o, r):
+        """the property itself: ops + gates, measured with new_measurements, reproduces the results of the original tape"""
+        import pennylane as qp
+        gates, new_mps = r
+        tape = o.tape
+        if len(new_mps) != len(tape.measurements):
+            return False
+        dev = qp.device("default.qubit")
+        wires = list(tape.wires)
+
+        def analytic(m):
+            if isinstance(m, (qp.measurements.SampleMP, qp.measurements.CountsMP)) and m.obs is None:
+                return qp.probs(wires=list(m.wires) if len(m.wires) else wires)     # the distribution the samples are drawn from
+            if isinstance(m, qp.measurements.ProbabilityMP) and m.obs is None and not len(m.wires):
+                return qp.probs(wires=wires)
+            return m
+        for m, nm in zip(tape.measurements, new_mps):
+            if type(m) is not type(nm):
+                return False
+            if m.obs is None and not (nm.obs is None and nm.wires == m.wires):
+                return False
+        ref = dev.execute(qp.tape.QuantumScript(tape.operations, [analytic(m) for m in tape.measurements]))
+        got = dev.execute(qp.tape.QuantumScript(list(tape.operations) + list(gates), [analytic(m) for m in new_mps]))
+        if len(tape.measurements) == 1:
+            ref, got = (ref,), (got,)
+        return all(close(x, y) for x, y in zip(ref, got))
+
+    def post(o, r, nw):
+        if not is_sym(o.tape):
+            return native_post(o, r)
+        if not isinstance(r, tuple) or len(r) != 2 or not isinstance(r[0], PyList) or not isinstance(r[1], PyList):
+            return False
+        gates, new_mps = r[0].items, r[1].items
+        mps = o.tape.measurements.items
+        if len(new_mps) != len(mps):
+            return False
+        if not all(isinstance(g, Rec) and g.cls.name == "BasisChange" for g in gates):
+            return False
+        goals = []
+        if len(gates) > 1:
+            goals.append(z3.Distinct(*[g.wire for g in gates]))                       # at most one basis change per wire
+        obs_mps, cb_mps = tape_view(o.tape)
+        live = nw.tape.measurements.items
+        for j, occupied in cb_mps:
+            if new_mps[j] is not live[j] and new_mps[j] is not mps[j]:
+                return False
+            goals += [g.wire != u for g in gates for u in occupied]                   # occupied wires carry no basis change
+        for j, ls in obs_mps:
+            nm = new_mps[j]
+            if not isinstance(nm, Rec) or nm.cls is not mps[j].cls or not isinstance(nm.obs, Rec):
+                return False
+            if (kind_of(nm.obs) == "Prod") != (kind_of(mps[j].obs) == "Prod"):
+                return False
+            nls = leaves_of(nm.obs)
+            if len(nls) != len(ls):
+                return False
+            for (k, x), (nk, nx) in zip(ls, nls):
+                goals.append(nx == x)
+                if k == "Identity":
+                    if nk != "Identity":
+                        return False
+                    continue
+                for g in gates:
+                    goals.append(Implies(g.wire == x, g.kind == k and nk == "Z"))
+                goals.append(Implies(And(*[g.wire != x for g in gates]), nk == k))
+        return And(*goals)
+
+    cb_pool = DG_CB
+    obs_pool = DG_OBS if tier != "quick" else [s for s in DG_OBS if s not in (("V", "x"),)]
+    shapes = [(s,) for s in DG_OBS + DG_CB]
+    shapes += [(a, b) for a in cb_pool for b in obs_pool] + [(b, a) for a in cb_pool for b in obs_pool]
+    shapes += [(a, b) for a in obs_pool for b in obs_pool]
+    shapes += [(("P", 0), ("P", 1)), (("S", 0), ("C", 1))]
+    shapes += DG_TRIPLES
+    if tier != "quick":
+        shapes += [(a, b, c) for a in (("P", 0), ("P", 1)) for b in DG_OBS[:5] for c in DG_OBS[:7]]
+    cases = []
+    for shape in shapes:
+        c = Case(dg_label(shape), {"tape": T("build", mk_tape(shape), gen=gen_tape(shape)),
+                                   "supported_base_obs": T("build", mk_supported, gen=gen_supported)},
+                 size_bounded=True, max_paths=4000, requires=well_formed, ensures=post, native_call=native_call,
+                 raises={"ValueError": conflict}, must_return=lambda o: Not(conflict(o)))
+        c.interp_cls = DInterp
+        cases.append(c)
+    fc = FnContract(w, "_diagonalize_subset_of_pauli_obs", cases)
+    for q in ("_diagonalize_subset_of_pauli_obs", "_diagonalize_observable", "_check_if_diagonalizing", "_get_obs_and_gates",
+              "_diagonalize_composite_op"):
+        plan.fn_under_contract(DG, q)
+    for ob in obligations_for("C20", fc, tier):
+        plan.add(ob)
+    return {"bounds": [f"_diagonalize_subset_of_pauli_obs: {len(shapes)} measurement lists: every single measurement of "
+                       f"{len(DG_OBS)} observable shapes (leaves X / Y / Z / Hadamard / Identity, products of two leaves, expval / var) and "
+                       f"{len(DG_CB)} computational-basis shapes (probs / sample / counts with 0..2 wires), all ordered pairs "
+                       "computational-basis x observable and observable x observable, 2 computational-basis pairs, "
+                       f"{len(DG_TRIPLES)} triples; {DG_NW} distinct symbolic tape wires, every measurement wire any of them; "
+                       "supported_base_obs any subset of {X, Y, Hadamard} (symbolic); to_eigvals=False"],
+            "assumed": ["X / Y / Hadamard(w).diagonalizing_gates(): a basis change G on wire w with G^dagger Z(w) G == the observable (none "
+                        "for Z / Identity); measuring unchanged observables on wires without basis change is unaffected",
+                        "functools.singledispatch of _diagonalize_non_basic_observable: a CompositeOp (Prod) goes to _diagonalize_composite_op",
+                        "operator equality / hashing in python sets: same class and same wires; measurement_process.samples_computational_basis "
+                        "== (obs is None); type(m)(obs) builds the same kind of measurement of obs; qp.wires.Wires([]) == m.wires iff m has no wires"],
+            "assumptions": ["diagonalize bookkeeping: tape.wires are the distinct wires of the tape and contain every measurement wire"]}
 
 
 def build(tier, seed):
@@ -543,14 +1167,33 @@ def build(tier, seed):
                    z3.Implies(z3.And(v == off + c1 * s1 + c2 * s2,            # splitter contract for measurement j (two contributions)
                                      r1 == s1, r2 == s2),                      # the executed single-term results are the val's
                               off + c1 * r1 + c2 * r2 == v)))                  # what the post-processing contract returns for j
-    plan.size_bounds = [f"_split_all_multi_term_obs_mps: tapes of 1..3 measurements from {len(M_SHAPES)} measurement shapes (sums of up to 3 terms, "
+    bp_bounds = add_split_operations(plan, tier)
+    dg_bounds = add_diagonalize_bookkeeping(plan, tier)
+    plan.explanation += ("  batch_params / batch_input: the real body of the shared helper _split_operations is executed on operator lists of "
+                         "enumerated arities with symbolic parameter values, for every subset of parameter slots marked as batched.  "
+                         "diagonalize_measurements: the real bodies of _diagonalize_subset_of_pauli_obs and of everything it calls are executed "
+                         "on tapes of enumerated measurement shapes with SYMBOLIC wire labels (set membership forks on wire equality); the returned "
+                         "rotations and measurements are compared with the conjugation table of single-qubit basis changes.")
+    plan.assumed_contracts += bp_bounds["assumed"] + dg_bounds["assumed"]
+    plan.assumptions += bp_bounds["assumptions"] + dg_bounds["assumptions"]
+    plan.size_bounds = bp_bounds["bounds"] + dg_bounds["bounds"] + [f"_split_all_multi_term_obs_mps: tapes of 1..3 measurements from {len(M_SHAPES)} measurement shapes (sums of up to 3 terms, "
                         "Identity terms at every position, SProd, plain / Identity observables, non-expectation measurements with and without "
                         "observable); all single tapes, pairs over a 7-shape subset (every second ordered pair in the quick tier), 4 triples",
                         "_sum_terms: 0..3 terms; _processing_fn_no_grouping: 12 dictionary shapes (<= 3 measurements, <= 3 single-term "
                         "measurements); _processing_fn_with_grouping: 5 group layouts (<= 3 groups of size <= 2)"]
     plan.unverified = ["grouping strategies (qwc / wires / shot distribution), _split_ham_with_grouping, _split_using_*_grouping",
                        "the tape construction of both transforms (tape.copy / QuantumScript(...)), null_postprocessing shortcuts",
-                       "diagonalize_measurements, sign_expand, broadcast_expand, batch_params / batch_input, execution",
+                       "sign_expand, broadcast_expand, execution",
+                       "batch_params / batch_input beyond _split_operations: validation of the batch dimensions / argnum, construction of the "
+                       "output tapes, the _nested_stack post-processing, bind_new_parameters itself, templates with tensor-valued weights",
+                       "diagonalize_measurements beyond the bookkeeping of _diagonalize_subset_of_pauli_obs: the pauli_rep based path "
+                       "(_diagonalize_all_pauli_obs, diagonalize_qwc_pauli_words, _change_obs_to_Z), the transform wrapper (supported_base_obs / "
+                       "to_eigvals validation, the QuantumFunctionError fallback, tape.copy), to_eigvals=True, SProd / Sum / LinearCombination "
+                       "observables (_diagonalize_symbolic_op, _diagonalize_linear_combination), the gates returned by diagonalizing_gates()",
+                       "diagonalize_measurements with observables other than X / Y / Z / Hadamard / Identity and their products (Hermitian, "
+                       "Projector ...: the default _diagonalize_non_basic_observable records only wires[0] and never checks for an earlier basis "
+                       "change; NOT covered, candidate defect reported to the lead: [expval(X(0)), expval(Hermitian(Y-matrix, 0))] is accepted "
+                       "and returns the wrong sign)",
                        "array-valued results, shot vectors (shot_vector_support), broadcast batches (batch_size > 1), autograd / abstract tensors",
                        "tapes containing a non-expectation measurement of Identity are represented by ONE instance (F13: the contract is "
                        "refuted there)"]
